@@ -56,6 +56,7 @@ NA = {
     'C06': "equality with an external reference bit stream: a symmetric change of encoder and decoder is invisible to any sibling rule, and comparing against a frozen copy of today's formulas would alarm on every behaviour-preserving rewrite",
     'C11': "interval arithmetic on lower/range values of the seal words; no structural fact implies it",
     'C12': "analytic inequality between bit counts and information content (value-level)",
+    'C15': "prefix-freeness, Kraft equality and optimality are statements about code lengths and bit patterns; the one structural clause planned for it (both tree builders run the same merge protocol) was not built, so nothing is claimed. Rejection of out-of-alphabet symbols before emission is decided under C09 and the entry bounds of the unchecked table walks under C20",
     'C16': "LIFO/FIFO identity, exact len(), re-import and Exp-Golomb round trips are statements about bit patterns inside words (their inspection guards are decided under C08)",
 }
 PENDING = "check not built yet in this round (see DESIGN.md §7 build order); will be claimed or declared not applicable with a reason"
